@@ -1,5 +1,6 @@
 import Driver.Disk
 import Driver.Reactor
+import Driver.Item
 /-! zdriver: `zdriver <domain> [--base]` reads one JSON object per line, prints one result line each. -/
 open Lean
 
@@ -15,6 +16,7 @@ def stateless (f : Bool → Json → Except String String) : Domain :=
 def domains : List (String × Domain) := [
   ("disk", stateless Driver.Disk.step),
   ("diskwatch", stateless Driver.Disk.stepWatch),
+  ("item", { σ := Zeno.Model.Item.Tree, init := Driver.Item.init, step := Driver.Item.step }),
   ("reactor", { σ := Zeno.Model.Reactor.R, init := Zeno.Model.Reactor.R.init, step := Driver.Reactor.step })
 ]
 
